@@ -414,3 +414,33 @@ func init() {
 		What:   "real StreamUnderlay.readOneSegment/readSessionSegment/readDataAckSegment/Unmarshal of an ESTABLISHED connection (client and server) whose peer holds the credential: every Decrypt is an oracle (fails, or yields ARBITRARY metadata / payload), the stream has any length 0..70000: never a panic; every error carries a type RunEventLoop accepts (it panics on NO_ERROR/UNKNOWN_ERROR); only protocol types 2..11 are passed on; never reads past the stream",
 		Bounds: "one segment; low-entropy data types 10/11 excluded here (their 64-step bit loops are C17's)", Outside: "io.ReadFull replaced by a length-only model (the bytes read are irrelevant under a decrypt oracle); replay cache answer arbitrary; first segment of a server connection (user discovery) is C05/C07"})
 }
+
+func init() {
+	q := map[string]string{
+		"github.com/google/btree.NewG":                           "vTreeNew",
+		"(*github.com/google/btree.BTreeG[T]).Len":               "vTreeLen",
+		"(*github.com/google/btree.BTreeG[T]).ReplaceOrInsert":   "vTreeReplaceOrInsert",
+		"(*github.com/google/btree.BTreeG[T]).Min":               "vTreeMin",
+		"(*github.com/google/btree.BTreeG[T]).Max":               "vTreeMax",
+		"(*github.com/google/btree.BTreeG[T]).DeleteMin":         "vTreeDeleteMin",
+		"(*github.com/google/btree.BTreeG[T]).Clear":             "vTreeClear",
+		"(*github.com/google/btree.BTreeG[T]).Ascend":            "vTreeAscend",
+		"(*github.com/enfein/mieru/v3/pkg/protocol.Session).output": "vStubOutput",
+		"github.com/enfein/mieru/v3/pkg/metrics.RegisterMetric":  "vStubRegisterMetric",
+		"(*github.com/enfein/mieru/v3/pkg/metrics.Counter).DeltaBetween":  "vStubDeltaBetween",
+		"github.com/enfein/mieru/v3/pkg/metrics.GetMetricGroupByName":     "vStubGetMetricGroup",
+		"(*github.com/enfein/mieru/v3/pkg/metrics.MetricGroup).GetMetric": "vStubGetMetric",
+	}
+	lb := map[string]int{"closeWithError": 1001}
+	note := "per-user counters replaced by ARBITRARY window totals (the k-th DeltaBetween query returns a symbolic value and records its window; conservation of the counters themselves is H19.1); policies built by the real serveruser.BuildPolicies; B-tree model; Session.output stubbed; mutexes no-ops"
+	reg("C19",
+		HarnessDef{ID: "H19.3a", Spec: HarnessSpec{Name: "vH_C19_check_quota", Pkg: "pkg/protocol", LoopBound: 8, LoopBounds: lb, TimeoutS: 120, Par: 4, Redirects: q},
+			What:   "real Session.checkQuota for a user with 0, 1 or 2 quotas, arbitrary allowances and arbitrary per-window traffic: refused iff SOME window of the user's OWN policy is exceeded, each window judged on its own upload+download; a policy is never applied to another user name",
+			Bounds: "<= 2 quotas, windows of 1/7/30/365 days, traffic < 2^50 bytes", Outside: note},
+		HarnessDef{ID: "H19.3b", Spec: HarnessSpec{Name: "vH_C19_quota_window", Pkg: "pkg/protocol", LoopBound: 8, LoopBounds: lb, TimeoutS: 120, Par: 4, Redirects: q},
+			What: "the window consulted for a quota of D days is exactly the last D*24h, for upload and download alike", Bounds: "D in {1,7,30,365}", Outside: note},
+		HarnessDef{ID: "H19.3c", Spec: HarnessSpec{Name: "vH_C19_quota_refusal", Pkg: "pkg/protocol", LoopBound: 8, LoopBounds: lb, TimeoutS: 240, Par: 6, Redirects: q},
+			What:   "real Session.input of an open-session request carrying early payload, both transports: a user over quota gets the quota status, no open-session response, a closed session, and NOTHING relayed (a Read returns no byte of the piggybacked payload); a user within its allowance is answered and its payload delivered",
+			Bounds: "one quota, payload 2 bytes", Outside: note},
+	)
+}
